@@ -1648,11 +1648,67 @@ def _t3_side_condition(ctx, key, edges, sites):
     return True, ""
 
 
+def _table_end_probe(ctx):
+    from .util import handler_names
+    """AKAI directory scan: the slot count comes from the length of the directory's sector chain, which a damaged table can link on
+    through unreadable sectors.  The scan is proportional to the readable part only because the end-of-table probe takes a slot that
+    cannot be read for the end of the table - and is not run under the handler that skips a bad entry and goes on."""
+    fe = ctx.fn("smpl_extract/akai/file_entry.py", "FileEntriesAdapter._parse", "T4")
+    mod = fe._module
+    CATCH_ALL = {"StreamError", "ConstructError", "Exception", "BaseException"}
+    # the probe: the try statement around the read of the end flag (Int16ul), in _parse itself, in a nested def or in a module-level helper
+    scopes = [fe] + [f for f in mod.tree.body if isinstance(f, ast.FunctionDef)]
+    probes = []
+    for sc_ in scopes:
+        for t in ast.walk(sc_):
+            if isinstance(t, ast.Try) and any(isinstance(c, ast.Call) and norm(c.func) in ("Int16ul.parse_stream", "Int16ul.parse") for b in t.body for c in ast.walk(b)):
+                probes.append((sc_, t))
+    if not probes:
+        ctx.ob("T4", fe, "the directory scan ends at the first slot whose end flag cannot be read", False,
+               "no guarded read of the end flag found: an unreadable slot either aborts the listing or is skipped like a bad entry, up to the full slot count", inst="table-end-probe")
+        return
+    ok, det = True, ""
+    for sc_, t in probes:
+        hs = [h for h in t.handlers if h.type is None or (set(handler_names(h)) & CATCH_ALL)]
+        if not hs:
+            ok, det = False, "the end-flag read has no handler for StreamError: an unreadable slot is not taken for the end of the table"
+        elif any(isinstance(x, ast.Raise) for h in hs for b in h.body for x in ast.walk(b)):
+            ok, det = False, "the StreamError handler of the end-flag read raises"
+        # where the probe runs: not under a handler of _parse that swallows the error and continues with the next slot
+        sites = [t] if sc_ is fe and not any(isinstance(p_, ast.FunctionDef) and p_ is not fe for p_ in _parents(t, fe)) else \
+            [c for c in ast.walk(fe) if isinstance(c, ast.Call) and isinstance(c.func, ast.Name) and c.func.id == _enclosing_fn(t, sc_).name]
+        for site in sites:
+            for par in _parents(site, fe):
+                if isinstance(par, ast.Try) and any(any(x is site for x in ast.walk(b)) for b in par.body) and par is not t \
+                        and any(h.type is None or (set(handler_names(h)) & CATCH_ALL) for h in par.handlers):
+                    ok, det = False, "the end-of-table probe runs inside the try block whose handler skips a bad entry: an unreadable slot is skipped and the scan goes on to the full slot count"
+    ctx.ob("T4", probes[0][1], "the directory scan ends at the first slot whose end flag cannot be read (the probe is not run under the skip-a-bad-entry handler)", ok, det, inst="table-end-probe")
+
+
+def _parents(node, stop):
+    out = []
+    t = getattr(node, "_parent", None)
+    while t is not None and t is not stop:
+        out.append(t)
+        t = getattr(t, "_parent", None)
+    return out
+
+
+def _enclosing_fn(node, default):
+    t = node
+    while t is not None:
+        if isinstance(t, (ast.FunctionDef, ast.AsyncFunctionDef)):
+            return t
+        t = getattr(t, "_parent", None)
+    return default
+
+
 def rule_T4(ctx):
     """counts / eager sizes taken from image data are bounded by their field width or lazy"""
     from ..core.layout import Layouts, Unknown, find_construct_calls
     lay = Layouts(ctx)
     n = 0
+    _table_end_probe(ctx)
     for m in ctx.prog.modules.values():
         for call, name in find_construct_calls(ctx, m, {"Bytes", "GreedyBytes", "GreedyRange"}):
             if name == "Bytes":
@@ -1772,6 +1828,83 @@ def rule_T5(ctx):
         hz = rx.backtracking_hazards(tree)
         ctx.ob("T5", node, "regex has no exponential-backtracking construct (nested unbounded repeats / overlapping alternatives under a repeat)", not hz,
                f"{pat!r}: {'; '.join(hz)}" if hz else "", inst=f"regex:{m.path}:{pat!r}"[:120], file=m.path)
+        deg, _pos = rx.polynomial_degree(tree)
+        if deg > 1 and bounded_input(node, m):
+            deg = 1  # applied to a text of fixed, small width only: its cost is bounded by a constant
+        ctx.ob("T5", node, "regex matches in time proportional to the text (at most one unbounded repeat can take the same run of characters before a point of failure)", deg <= 1,
+               "" if deg <= 1 else f"{pat!r}: {deg} adjacent unbounded repeats can share one run of characters: on a run of n such characters that does not lead to a match the "
+               f"matcher takes on the order of n^{deg} steps", inst=f"regex-linear:{m.path}:{label(node, pat)}"[:120], file=m.path)
+
+    def label(node, pat):
+        # a named regex is known by its name (a respelled pattern is the same construct)
+        if isinstance(node, ast.Call) and isinstance(getattr(node, "_parent", None), (ast.Assign, ast.AnnAssign)) and node._parent.value is node:
+            node = node._parent
+        if isinstance(node, ast.Assign) and len(node.targets) == 1 and isinstance(node.targets[0], ast.Name):
+            return node.targets[0].id
+        if isinstance(node, ast.AnnAssign) and isinstance(node.target, ast.Name):
+            return node.target.id
+        return repr(pat)
+
+    def bounded_input(node, m):
+        """a class-level regex of an adapter that is only ever applied, inside that class, to fields of the decoded container which
+        the struct declares as fixed-width strings of at most 64 bytes.  Uses are `R.match(E)`, a `(E, R)` row of a verification
+        table, or a call that is handed both R and E; E is `<local>.<field>` or a local bound once to that."""
+        if isinstance(node, ast.Call) and isinstance(getattr(node, "_parent", None), ast.Assign) and node._parent.value is node:
+            node = node._parent  # the re.compile(..) call of a class-level assignment
+        cls = getattr(node, "_parent", None)
+        if not isinstance(cls, ast.ClassDef) or not isinstance(node, ast.Assign) or len(node.targets) != 1 or not isinstance(node.targets[0], ast.Name):
+            return False
+        nm = node.targets[0].id
+        uses = [x for x in ast.walk(m.tree) if (isinstance(x, ast.Attribute) and x.attr == nm) or (isinstance(x, ast.Name) and x.id == nm and x is not node.targets[0])]
+        if not uses or any(not (isinstance(x, ast.Attribute) and isinstance(x.value, ast.Name) and x.value.id in ("self", "cls", cls.name)) or not any(x is y for y in ast.walk(cls)) for x in uses):
+            return False
+
+        def field_of(e, fn_):
+            if isinstance(e, ast.Attribute) and isinstance(e.value, ast.Name) and e.value.id not in ("self", "cls"):
+                return e.attr
+            if isinstance(e, ast.Name) and fn_ is not None:
+                ds = [a_.value for a_ in ast.walk(fn_) if isinstance(a_, ast.Assign) and len(a_.targets) == 1 and isinstance(a_.targets[0], ast.Name) and a_.targets[0].id == e.id]
+                if len(ds) == 1:
+                    return field_of(ds[0], None)
+            return None
+        fields = set()
+        for x in uses:
+            par = getattr(x, "_parent", None)
+            fn_ = x
+            while fn_ is not None and not isinstance(fn_, (ast.FunctionDef, ast.AsyncFunctionDef)):
+                fn_ = getattr(fn_, "_parent", None)
+            cands = None
+            if isinstance(par, ast.Tuple) and len(par.elts) == 2 and par.elts[1] is x:
+                cands = [par.elts[0]]  # (container.field, self._REGEX) row of a verification table
+            elif isinstance(par, ast.Attribute) and par.attr in ("match", "fullmatch") and isinstance(getattr(par, "_parent", None), ast.Call) and par._parent.args:
+                cands = [par._parent.args[0]]
+            elif isinstance(par, ast.Call) and any(a_ is x for a_ in par.args):
+                cands = [a_ for a_ in par.args if a_ is not x]  # a helper that is handed the regex and the text
+            if not cands:
+                return False
+            for c_ in cands:
+                f_ = field_of(c_, fn_)
+                if f_ is None:
+                    return False
+                fields.add(f_)
+        # the struct: any module-level Struct of this module that declares all those fields with a fixed width of at most 64 bytes
+        from ..core.layout import Layouts, Unknown, Struct as LStruct, Wrap
+        L = Layouts(ctx)
+        for st in m.tree.body:
+            if isinstance(st, ast.Assign) and len(st.targets) == 1 and isinstance(st.targets[0], ast.Name) and isinstance(st.value, ast.Call):
+                try:
+                    lay = L.of_name(m, st.targets[0].id)
+                except Exception:
+                    continue
+                cur = lay
+                while isinstance(cur, Wrap):
+                    cur = cur.inner
+                if not isinstance(cur, LStruct):
+                    continue
+                sizes = {fn2_: f2_.size for fn2_, f2_ in cur.fields if fn2_}
+                if fields and all(isinstance(sizes.get(f_), int) and 0 < sizes[f_] <= 64 for f_ in fields):
+                    return True
+        return False
 
     # (a) compiled regexes bound at module / class level (directly or through a pattern-building helper)
     helper_built = set()
@@ -1816,11 +1949,13 @@ def rule_T5(ctx):
             if not isinstance(pat, (str, bytes)):
                 continue
             fl = 0
-            for k in c.keywords:
-                if k.arg == "flags":
-                    try:
-                        fl = int(ctx.folder.ev(k.value, m))
-                    except Exception:
-                        fl = 0
+            fl_nodes = [k.value for k in c.keywords if k.arg == "flags"]
+            if not fl_nodes and c.func.attr == "compile" and len(c.args) >= 2:
+                fl_nodes = [c.args[1]]  # re.compile(pattern, flags)
+            for fn_ in fl_nodes:
+                try:
+                    fl = int(ctx.folder.ev(fn_, m))
+                except Exception:
+                    fl = 0
             judge(c, pat, fl, m)
     ctx.fact("T5", "regexes", n)
